@@ -23,9 +23,9 @@ def c13_1(R):
     for t in pushes:
         ok = False
         for c, truth, d, *_ in controlling(tc, t.bb):
-            if c.kind == "bin" and c.op == "Lt" and truth:
-                a = trace(tc, c.a)
-                if a.kind == "call" and call_on_field(tc, a.root[1], ("VecDeque::len",), SYNS) and c.b.kind == "const" and c.b.const_item == "socket::ACCEPT_QUEUE_MAX_SYNS":
+            for r_, x_, y_ in implied(c, truth):
+                a = trace(tc, x_)
+                if r_ == "lt" and a.kind == "call" and call_on_field(tc, a.root[1], ("VecDeque::len",), SYNS) and y_.kind == "const" and y_.const_item == "socket::ACCEPT_QUEUE_MAX_SYNS":
                     ok = True
         if ok:
             R.ok("cache-syn=>below-limit", tc.name, "push only while syns.len() < ACCEPT_QUEUE_MAX_SYNS")
@@ -234,7 +234,8 @@ def c13_4(R):
     adapters = ("std::iter::Iterator::take", "std::iter::Iterator::skip", "std::iter::Iterator::filter", "std::iter::Iterator::take_while", "std::iter::Iterator::skip_while", "std::iter::Iterator::step_by", "std::iter::Iterator::rev")
     for name in ("insert", "pop", "pop_by_token"):
         b = R.body("socket::ConnectingPerAddr::" + name)
-        nexts = [t for t in b.calls() if call_matches(t, ("Iterator::next",))]
+        # a `for` loop (Iterator::next) or any consuming search over the whole iterator
+        nexts = [t for t in b.calls() if call_matches(t, ("Iterator::next", "Iterator::find", "Iterator::find_map", "Iterator::position", "Iterator::any", "Iterator::all", "Iterator::for_each", "Iterator::fold", "Iterator::try_for_each", "Iterator::try_fold"))]
         ok = False
         why = "no scan loop"
         for t in nexts:
@@ -254,7 +255,7 @@ def c13_4(R):
             else:
                 why = "iterates " + src.describe()[:50]
         if ok:
-            R.ok("slot-scan-exhaustive", b.name, "for slot in self.slots.iter_mut()")
+            R.ok("slot-scan-exhaustive", b.name, "self.slots.iter_mut() traversed without a restricting adapter")
         else:
             R.fail([b.name, "slot-scan", why], "%s does not scan all connecting slots (%s): an entry behind a hole is never found and its slot leaks" % (name, why), where=b.where(), instance="slot-scan-exhaustive")
 
